@@ -48,7 +48,7 @@ def new (sr : F32) : Adsr :=
 /-- table sample at the accumulator position, interpolated towards the next entry (clamped at the end) -/
 def sample (a : Adsr) (tbl : Nat → F32) : F32 :=
   let i := a.pa.index
-  let j := Nat.min (i + 1) (Gen.adsrLutSize - 1)
+  let j := min (i + 1) (Gen.adsrLutSize - 1)
   linearInterp (tbl i) (tbl j) a.pa.fraction
 
 /-- `calc_value()` : `coefficient * sample + offset` -/
